@@ -43,15 +43,25 @@ def run(ctx):
     ctx.not_decided += ["delivery counts and event contents under arbitrary nestings of batch/update/discard/trigger (need execution)"]
 
     # ------------------------------------------------------------ R04.a
-    bad = []
+    bad, badq = [], []
     n = 0
     for trig, oc, changed, queued in itertools.product([True, False], repeat=4):
         got, ns, w, _ = call_watcher_outcome(ctx, trig, oc, changed, True, queued=queued)
         n += 1
         if got in ("execute", "both"):
             bad.append((trig, oc, changed, got))
+        # what is queued is exactly what qualifies: the event and the watcher together, or neither (an event queued for a
+        # watcher it does not qualify for is delivered at the flush to the multi-parameter watchers queued through another
+        # parameter, and replaces the qualifying event of an earlier assignment in the coalesced table)
+        qualifies = trig or not oc or changed
+        n_ev, n_w = len(ns.attrs["_events"]), len([x for x in ns.attrs["_state_watchers"] if x is w])
+        if (n_ev, n_w) != ((1, 1) if qualifies else (0, 0)):
+            badq.append((trig, oc, changed, n_ev, n_w))
     ctx.abstract_cases += n
     cw = ctx.repo.func(P + "Parameters._call_watcher")
+    if badq and not bad:
+        ctx.fail("R04.a", cw, cw.node, "with the batching flag set (TRIGGER=%s, onlychanged=%s, changed=%s) _call_watcher queues %d event(s) and the watcher %d time(s); specification: the event and "
+                                       "the watcher together when the event qualifies for the watcher, nothing otherwise" % badq[0], key=cw.qualname + "::queued-what-does-not-qualify")
     if bad:
         ctx.fail("R04.a", cw, cw.node, "with the batching flag set (TRIGGER=%s, onlychanged=%s, changed=%s) _call_watcher still executes the watcher (%s)" % bad[0])
     else:
